@@ -13,7 +13,7 @@ ASSUMPTIONS = ["reference vf/ref/ec.py, self-tested against published RFC 6979 s
 NSHARDS = {"quick": 32, "thorough": 64}
 BUDGET_S = {"quick": 200, "thorough": 1800}
 MIN_HITS = {
-    'quick': {"mode_det": 1664, "mode_k": 416, "mode_rand": 416, "mode_digest": 416, "mode_msg": 416, "reverse_k": 1040, "edge_key": 1208, "ecdh": 416, "neg_verify": 9152},
+    'quick': {"mode_det": 1664, "mode_k": 416, "mode_rand": 416, "mode_digest": 416, "mode_msg": 416, "reverse_k": 1040, "edge_key": 1208, "ecdh": 416, "neg_verify": 14976},
     'thorough': {"mode_det": 92160, "mode_k": 23040, "mode_rand": 23040, "mode_digest": 23040, "mode_msg": 23040, "reverse_k": 57660, "edge_key": 65016, "ecdh": 23040, "neg_verify": 506880},
 }
 EDGE = [1, 2, 3, (ec.N - 1) // 2, (ec.N + 1) // 2, ec.N - 2, ec.N - 1]
@@ -49,6 +49,9 @@ def cases(ctx):
         d = gen.rbytes(r, 32) if r.random() < 0.8 else r.choice([b"\x00" * 32, b"\xff" * 32, (ec.N).to_bytes(32, "big"), (ec.N - 1).to_bytes(32, "big"), (1).to_bytes(32, "big")])
         yield dict(base, mode="digest", msg=d.hex(), hash="none")
         yield {"k": "ecdh", "a": rkey(r).to_bytes(32, "big").hex(), "b": rkey(r).to_bytes(32, "big").hex(), "ca": r.random() < 0.5, "cb": r.random() < 0.5}
+    # one very long message (above 32 MiB), generated inside the driver so that no hex has to be shipped
+    if ctx.shard in (0, 1):
+        yield {"k": "longmsg", "key": rkey(r).to_bytes(32, "big").hex(), "compressed": True, "len": (32 << 20) + 1 + ctx.shard * 4096, "hash": ["sha256", "sha256d"][ctx.shard]}
 
 
 def digest_of(hsh, m):
@@ -69,6 +72,27 @@ def judge(ctx, case):
             ctx.viol("ECDH shared secret is not symmetric", {"ab": str(r1)[:200], "ba": str(r2)[:200]})
         if r1.get("ok") != exp:
             ctx.viol("ECDH shared secret differs from the reference x(a*B)", {"got": str(r1.get("ok", r1.get("err")))[:100], "exp": exp})
+        return
+    if case["k"] == "longmsg":
+        n = case["len"]
+        msg = bytes((i * 31 + 7) & 0xFF for i in range(256)) * (n // 256 + 1)
+        msg = msg[:n]
+        x = int(case["key"], 16)
+        ctx.hit("long_message")
+        ctx.nontrivial()
+        d = digest_of(case["hash"], msg)
+        r = ctx.call({"op": "ecdsa_sign", "mode": "det", "key": case["key"], "compressed": True, "msg_gen": {"len": n}, "hash": case["hash"], "reverse_k": False}, watchdog=600)
+        ctx.ev()
+        if "ok" not in r:
+            ctx.viol("signing a message longer than 32 MiB failed", {"resp": str(r)[:200]})
+            return
+        e = ec.sign_det(x, d)
+        if (int(r["ok"]["r"], 16), int(r["ok"]["s"], 16)) != (e[0], e[1]):
+            ctx.viol("deterministic signature over a message longer than 32 MiB differs from the reference", {})
+        v = ctx.call({"op": "ecdsa_verify", "pub": r["ok"]["pub"], "r": r["ok"]["r"], "s": r["ok"]["s"], "msg_gen": {"len": n}, "hash": case["hash"]}, watchdog=600)
+        ctx.ev()
+        if v.get("ok", {}).get("verify_digest", {}).get("ok") is not True:
+            ctx.viol("verify_digest rejects a genuine signature over a message longer than 32 MiB", {"resp": str(v)[:200]})
         return
     x = int(case["key"], 16)
     mode = case["mode"]
@@ -160,7 +184,13 @@ def judge(ctx, case):
     other_msg = (m + b"\x01").hex() if len(m) < 1000 else m[:-1].hex()
     other_hash = "sha256d" if hsh == "sha256" else "sha256"
     other_key = ec.ser(ec.mul_g((x % (ec.N - 1)) + 1), case["compressed"]).hex()
-    for what, (mh, hn, pk) in {"message": (other_msg, hsh, o["pub"]), "hash choice": (case["msg"], other_hash, o["pub"]), "key": (case["msg"], hsh, other_key)}.items():
+    negs = {"message": (other_msg, hsh, o["pub"]), "hash choice": (case["msg"], other_hash, o["pub"]), "key": (case["msg"], hsh, other_key)}
+    # structurally related "other messages": the digests of the signed message (a verifier that also tries the message as a pre-hashed
+    # digest would accept these)
+    if m not in (hashes.sha256(m), hashes.sha256d(m)):
+        negs["message (the SHA-256 of the signed message)"] = (hashes.sha256(m).hex(), hsh, o["pub"])
+        negs["message (the double SHA-256 of the signed message)"] = (hashes.sha256d(m).hex(), hsh, o["pub"])
+    for what, (mh, hn, pk) in negs.items():
         res2, _ = lib_accepts(mh, hn, pk)
         ctx.ev()
         ctx.hit("neg_verify")
